@@ -837,6 +837,10 @@ func (fx *FX) evalCall(env *Env, t *ECall) Val {
 		w.Declare(fn, fmt.Sprintf("(declare-fun %s ((_ BitVec 64) (_ BitVec 64) Bool %s) Int)", fn, SArr(SBV64, es)))
 		mem := fx.comp(env.st, "M:"+sortID(es), SArr(SInt, SArr(SBV64, es)))
 		return Val{T: app(fn, SInt, sOff(x.T), sLen(x.T), IdEq(sReg(x.T), T("0", SInt)), Select(mem, sReg(x.T)))}
+	case "f64toi64":
+		// Go's int64(f) for a float64 in range: truncation toward zero
+		x := arg(0)
+		return Val{T: withSign(T(fmt.Sprintf("((_ fp.to_sbv 64) RTZ %s)", x.T.S), SBV64), true), Typ: types.Typ[types.Int64]}
 	case "streq":
 		// content equality of two strings (Go's == on strings)
 		return Val{T: fx.strEq(arg(0).T, arg(1).T)}
